@@ -191,6 +191,11 @@ func (p *Policy) sanitizeWithBuff(r io.Reader) *bytes.Buffer {
 	return &buff
 }
 
+// keptTagMarker prefixes the entries of closingTagToSkipStack that stand for a
+// kept element nested in a dropped element of the same name; "/" cannot occur
+// in a tag name
+const keptTagMarker = "/"
+
 type asStringWriter struct {
 	io.Writer
 }
@@ -309,6 +314,17 @@ func (p *Policy) sanitize(r io.Reader, w io.Writer) error {
 				}
 			}
 
+			if skipClosingTag && !isVoidElement(token.Data) {
+				// an element that is kept inside a dropped element of the same
+				// name must not lose its closing tag to it
+				for _, skipped := range closingTagToSkipStack {
+					if skipped == token.Data {
+						closingTagToSkipStack = append(closingTagToSkipStack, keptTagMarker+token.Data)
+						break
+					}
+				}
+			}
+
 			if !skipElementContent {
 				if _, err := buff.WriteString(token.String()); err != nil {
 					return err
@@ -332,7 +348,10 @@ func (p *Policy) sanitize(r io.Reader, w io.Writer) error {
 				}
 			}
 
-			if skipClosingTag && closingTagToSkipStack[len(closingTagToSkipStack)-1] == token.Data {
+			if skipClosingTag && closingTagToSkipStack[len(closingTagToSkipStack)-1] == keptTagMarker+token.Data {
+				// closes a kept element: only forget it
+				closingTagToSkipStack = closingTagToSkipStack[:len(closingTagToSkipStack)-1]
+			} else if skipClosingTag && closingTagToSkipStack[len(closingTagToSkipStack)-1] == token.Data {
 				closingTagToSkipStack = closingTagToSkipStack[:len(closingTagToSkipStack)-1]
 				if len(closingTagToSkipStack) == 0 {
 					skipClosingTag = false
